@@ -93,11 +93,26 @@ def make_case(index, rng, tier):
                            "POST /t HTTP/1.1\r\nHost: h\r\nContent-Length: 1\r\nTransfer-Encoding: chunked\r\n\r\n0\r\n\r\n",
                            "G\0T /t HTTP/1.1\r\n\r\n", "GET /" + "a" * 5000 + " HTTP/1.1\r\n\r\n"])
         progs = [appgen.gen_program(rng, allow_fail=False) for _ in range(n)]
+        if rng.randrange(3) == 0:
+            # the last completed request carries a chunked body the application does not read, whose trailer section is malformed: the
+            # server meets the error only when it discards that body on the way to the next request - after this one was answered and logged
+            bad = rng.choice(["Bad Trailer: x", "NoColon", "X-T: a\0b", ": empty-name", "X-T : sp"])
+            reqs[-1] = dict(reqs[-1], method="POST", body="hello", wants_close=False,
+                            bytes="POST /up HTTP/1.1\r\nHost: h\r\nX-Id: id%d\r\nTransfer-Encoding: chunked\r\n\r\n5\r\nhello\r\n0\r\n%s\r\n\r\n"
+                            % (n - 1, bad))
+            progs[-1]["read_body"] = "none"
+            tail = rng.choice(["", tail])
         return {"mode": "mixed", "reqs": reqs, "tail": tail, "progs": progs, "fmt": "ID=%({x-id}i)s " + fmt, "family": rng.choice(conn.FAMILIES),
                 "keepalive": 2, "sendfile": rng.choice([None, None, False])}
     n = rng.randrange(1, 4)
     reqs = [gen_req(rng) for _ in range(n)]
     progs = [appgen.gen_program(rng, allow_fail=(index % 7 == 0)) for _ in range(n)]
+    for p in progs:
+        if p["kind"] in ("iter", "write") and p["chunks"] and not p.get("fail") and rng.randrange(4) == 0:
+            # after the first piece of the body the application calls start_response again (the error-handler idiom, too late: the head
+            # is out) and swallows what that call raises: the client keeps the first status, and so must the record
+            p["second_sr"] = {"status": rng.choice(["500 Late", "404 Late", "200 OK"]), "headers": [["Content-Type", "text/plain"]],
+                              "exc_info": rng.randrange(4) != 0, "when": "after_write", "swallow": True}
     return {"mode": "normal", "reqs": reqs, "progs": progs, "fmt": fmt, "family": rng.choice(conn.FAMILIES),
             "keepalive": rng.choice([0, 2, 2]), "sendfile": rng.choice([None, None, False])}
 
